@@ -626,6 +626,10 @@ _SEED_RULE = {
     "C01-offset-unit-ignored": "offset-sign", "C03-add-folds-relative-prefactor": "prefactor", "C06-hartree-guard-wrong-axis": "sector-constructor",
     "C08-eigh-qn-skips-negative-partner": "eigh-blocks", "C12-0site-skipped-for-1x1-bond": "local-step", "C14-ttns-load-drops-coeff-with-user-attrs": "tree-round-trip",
     "C15-squeeze-identity-drops-factor": "factor-algebra", "C19-fehlberg5-last-row-swapped": "order-condition",
+    "C02-row-dedup-integer-key-collision": "tree-builder-exact", "C04-canonicalise-partial-sweep-switches-direction": "sweep-centre", "C07-entropy-unnormalised-spectrum": "observable-cache",
+    "C09-ps2-left-sweep-uses-left-bond-limit": "bond-limit", "C10-ps-ode-backward-sign-imag-time": "solver-sibling", "C11-2site-rdm-path-bra-not-conjugated": "state-network",
+    "C13-ttns-to-complex-shares-buffers": "copy-complete", "C16-reorganisation-energy-ground-frequency": "holstein-square", "C17-one-term-bond-operator-loses-coefficient": "out-ops-shape",
+    "C05-compress-recursion-drops-temporary-limit": "compress-sweep",
 }
 _sd = _os.path.join(_V, "seeded")
 for _name in sorted(_os.listdir(_sd)):
